@@ -205,7 +205,7 @@ func nf5Main(args mon.Args) {
 			}
 		}
 	}
-	n := run.Pick(50000, 5000000)
+	n := run.Pick(50000, 1000000)
 	mon.ParallelFor(n/100, func(bi int) {
 		for k := 0; k < 100; k++ {
 			g := mon.NewRNG(run.Seed, "nf5rand", bi*100+k)
